@@ -276,6 +276,7 @@ func ruleR18(c *Ctx) {
 			continue
 		}
 		seenRoot[R] = true
+		siteFn := l.Site.Func
 		if shortPkg(R.Pkg.PkgPath) == "pkg/tracing" {
 			// the tracer's own machinery (broadcaster, termination waiter, relay with its handle: R17)
 			if R.Root().Obj != nil && recvNamed(R.Root().Obj) != nil {
@@ -345,7 +346,7 @@ func ruleR18(c *Ctx) {
 					covered = true
 				}
 			}
-			c.Check(covered, R, sends[tp], "sends on "+tp, "a goroutine that sends traces on a tracer holds a sender handle registered on that same tracer (the tracer then waits for it before terminating; an unregistered sender can block forever in Send after termination)", fmt.Sprintf("handles held by %s are registered on %v", R.QName(), regs[R]))
+			c.Check(covered, siteFn, sends[tp], "goroutine launched here sends on "+tp, "a goroutine that sends traces on a tracer holds a sender handle registered on that same tracer (the tracer then waits for it before terminating; an unregistered sender can block forever in Send after termination)", fmt.Sprintf("handles held by %s are registered on %v", R.QName(), regs[R]))
 		}
 	}
 }
